@@ -256,7 +256,7 @@ fn segment_count(h: &H) -> usize {
 fn wait_for_index_flush(h: &H) {
     // sealed segments' index files are written by a background pool; wait until none of them is empty
     let segs = h.dir.join("buckets").join("00000").join("segments");
-    let deadline = std::time::Instant::now() + Duration::from_secs(5);
+    let deadline = std::time::Instant::now() + Duration::from_secs(40);
     loop {
         let mut ids: Vec<u32> = std::fs::read_dir(&segs).into_iter().flatten().filter_map(|e| e.ok()?.file_name().to_str()?.parse().ok()).collect();
         ids.sort();
